@@ -11,6 +11,7 @@ import (
 	"sort"
 	"strings"
 	"sync"
+	"time"
 
 	xmpp "gosrc.io/xmpp"
 	"gosrc.io/xmpp/stanza"
@@ -36,7 +37,7 @@ func (c10) RunFn() string { return "run_C10" }
 func (c10) Workers() int  { return 8 }
 func (c10) Journal() bool { return true }
 func (c10) Rule() string {
-	return "random histories (0-40 ops) over Send(stanza), Send(<r/>), Send(<a/>), SendRaw(stanza string) and server <a h/> with h below, equal to, above the number sent, stale, repeated and negative-free (h is unsigned on the wire) through the real Client.Send/SendRaw and Router.route(SMAnswer) on a recording transport; after every op the queue (ids, payloads) and the bytes written are compared; plus concurrent senders (8 goroutines) followed by acknowledgements; distinct = op-kind/h-class sequence; non-trivial = at least one ack with stanzas held"
+	return "random histories (0-40 ops) over Send(stanza), Send(<r/>), Send(<a/>), the server's <r/> answered by the real receive loop, SendRaw(stanza string) and server <a h/> with h below, equal to, above the number sent, stale, repeated and negative-free (h is unsigned on the wire) through the real Client.Send/SendRaw and Router.route(SMAnswer) on a recording transport; after every op the queue (ids, payloads) and the bytes written are compared; plus concurrent senders (8 goroutines) followed by acknowledgements; distinct = op-kind/h-class sequence; non-trivial = at least one ack with stanzas held"
 }
 
 func (c10) Decode(raw json.RawMessage) (interface{}, error) {
@@ -57,6 +58,7 @@ func (c10) Gen(r *rand.Rand, tier string) []interface{} {
 		c10In{Ops: []c10Op{{Op: "send", Body: "a"}, {Op: "send", Body: "b"}, {Op: "send", Body: "c"}, {Op: "ack", H: 3}, {Op: "send", Body: "d"}, {Op: "ack", H: 3}, {Op: "ack", H: 4}}},
 		c10In{Ops: []c10Op{{Op: "send", Kind: 2, H: 5}, {Op: "send", Body: "x"}, {Op: "ack", H: 0}}},
 		c10In{Ops: []c10Op{{Op: "ack", H: 1}}},
+		c10In{Ops: []c10Op{{Op: "peer_r"}, {Op: "send", Body: "x"}, {Op: "ack", H: 1}, {Op: "peer_r"}, {Op: "raw", Body: "<message id='y'/>"}, {Op: "ack", H: 1}}},
 	)
 	bodies := []string{"hi", "a <b> & c", "é漢😀", strings.Repeat("z", 200), "", "]]>"}
 	for i := 0; i < n; i++ {
@@ -73,7 +75,11 @@ func (c10) Gen(r *rand.Rand, tier string) []interface{} {
 				ops = append(ops, c10Op{Op: "raw", Body: fmt.Sprintf("<message id='r%d'><body>%s</body></message>", j, "raw")})
 				sent++
 			case c < 7:
-				ops = append(ops, c10Op{Op: "send", Kind: 1 + r.Intn(2), H: r.Intn(4)})
+				if r.Intn(2) == 0 {
+					ops = append(ops, c10Op{Op: "peer_r"})
+				} else {
+					ops = append(ops, c10Op{Op: "send", Kind: 1 + r.Intn(2), H: r.Intn(4)})
+				}
 			default:
 				_ = ackBias
 				var h int
@@ -106,7 +112,8 @@ func (c10) Gen(r *rand.Rand, tier string) []interface{} {
 }
 
 func c10Client() (*xmpp.Client, *stubTransport, *xmpp.Router) {
-	st := newStub(nil, nil)
+	st := newStub([][]byte{[]byte(clientHeader)}, nil)
+	st.feed = make(chan []byte, 4)
 	router := xmpp.NewRouter()
 	cfg := &xmpp.Config{TransportConfiguration: xmpp.TransportConfiguration{Address: "localhost:1"}, Jid: "u@localhost", Credential: xmpp.Password("p"), StreamManagementEnable: true}
 	c, err := xmpp.NewClient(cfg, router, func(error) {})
@@ -115,6 +122,12 @@ func c10Client() (*xmpp.Client, *stubTransport, *xmpp.Router) {
 	}
 	xmpp.VerifSetTransport(c, st)
 	xmpp.VerifSetSession(c, xmpp.SMState{Id: "sm", UnAckQueue: stanza.NewUnAckQueue()})
+	st.StartStream()
+	st.mu.Lock()
+	st.writes, st.nwrites = nil, 0
+	st.mu.Unlock()
+	// the real receive loop answers the server's <r/> (ops "peer_r")
+	go xmpp.VerifRecv(c, make(chan struct{}))
 	return c, st, router
 }
 
@@ -206,9 +219,18 @@ func (c10) Run(inp interface{}) Sx {
 			c.SendRaw(o.Body)
 		case "ack":
 			xmpp.VerifRoute(router, c, stanza.SMAnswer{H: uint(o.H)})
+		case "peer_r":
+			// the server asks for an acknowledgement: Client.recv writes <a/> through Client.Send
+			before := len(st.snapshotWrites())
+			st.feed <- []byte("<r xmlns='urn:xmpp:sm:3'/>")
+			for k := 0; k < 4000 && len(st.snapshotWrites()) == before; k++ {
+				time.Sleep(50 * time.Microsecond)
+			}
+			time.Sleep(200 * time.Microsecond)
 		}
 		steps = append(steps, snapshot())
 	}
+	close(st.feed)
 	return LS(steps)
 }
 
@@ -237,6 +259,9 @@ func (p c10) InputObs(inp interface{}, obs Sx) Sx {
 			ops = append(ops, L(Z(1), SBytes(o.Body)))
 		case "ack":
 			ops = append(ops, L(Z(2), Zi(o.H)))
+		case "peer_r":
+			// no stanza is ever received in these histories: the answer reports h=0
+			ops = append(ops, L(Z(0), Z(2), SBytes(`<a xmlns="urn:xmpp:sm:3" h="0"></a>`)))
 		}
 	}
 	return LS(ops)
@@ -309,6 +334,8 @@ func (c10) Oracle(inp interface{}, obs Sx) (string, string) {
 		case "raw":
 			sent = append(sent, o.Body)
 			wantWire = []string{o.Body}
+		case "peer_r":
+			wantWire = []string{`<a xmlns="urn:xmpp:sm:3" h="0"></a>`}
 		case "ack":
 			h := o.H
 			if h > len(sent) {
@@ -367,6 +394,9 @@ func (c10) Key(inp interface{}) (string, bool) {
 			b.WriteString("w")
 			sent++
 			hist("op:raw")
+		case "peer_r":
+			b.WriteString("p")
+			hist("op:peer_r")
 		case "ack":
 			cls := "<"
 			switch {
